@@ -41,7 +41,7 @@ def run(ctx):
     cases, descs = [], []
     # ---- complex-step methods x classes x {complex x, complex-valued f, both, neither} x dimensions x n/order
     for cname, method, xc, fc, dim in itertools.product(CLS, ['complex', 'multicomplex', 'central', 'forward'], [False, True], [False, True], [1, 2, 3]):
-        for n in ([1, 2] if cname == 'Derivative' else [None]):
+        for n in (([1, 2] if method == 'multicomplex' else [1, 2, 3, 4, 5, 8]) if cname == 'Derivative' else [None]):
             for order in ([2, 4] if cname not in ('Hessian',) else [None]):
                 kw = {'method': method}
                 if n is not None:
